@@ -158,6 +158,20 @@ func hasherFor[K comparable](name string, from func(K) int) func(K, uint64) uint
 		return func(k K, _ uint64) uint64 { return uint64(from(k))<<7 | 0x11 }
 	case "identity":
 		return func(k K, _ uint64) uint64 { return uint64(from(k)) }
+	case "split":
+		// cold keys (ids >= 1000) share eight buckets with hot key 0; every other hot key has a
+		// root bucket of its own that stays EMPTY however full the table is (first insert into an
+		// empty bucket while a resize triggered from a crowded bucket is running)
+		return func(k K, _ uint64) uint64 {
+			i := uint64(from(k))
+			if i >= 1000 {
+				return (i&7)<<7 | ((i >> 3) & 0x7f)
+			}
+			if i == 0 {
+				return 0<<7 | 0x7e
+			}
+			return (16+i)<<7 | 0x7d
+		}
 	case "lowbits":
 		// four buckets only, h2 from the key: long chains with mixed meta bytes
 		return func(k K, seed uint64) uint64 {
